@@ -393,7 +393,11 @@ class StmtMixin:
             for m in c.modifies:
                 root = m.split(".")[0].split("[")[0]
                 if root in an:
-                    add_target(an[root])
+                    try:
+                        from .calls import _replace_root
+                        add_target(_replace_root(ast.parse(m, mode="eval").body, an[root]))
+                    except Exception:
+                        add_target(an[root])
 
     def havoc_for_loop(self, st, names, spec, node, paths=()):
         decl = dict(self.contract_stack[-1].locals)
